@@ -149,8 +149,8 @@ def are_different(left, right):
     Return True if two values are different from one another.
 
     Values are considered different if they do not share the same type. In case
-    of numerical value, the comparison is done with :func:`numpy.isclose` to
-    account for rounding. In the context of this test, `nan` compares equal to
+    of floating point values, the comparison is done with :func:`numpy.isclose`
+    to account for rounding; integers are compared exactly. In the context of this test, `nan` compares equal to
     itself, which is not the default behavior.
 
     The order of mappings (dicts) is assumed to be irrelevant, so two
@@ -166,6 +166,11 @@ def are_different(left, right):
     # early to avoid extra work.
     if left is None:
         return False
+
+    if isinstance(left, numbers.Integral):
+        # Integers are exact: a tolerance would call residue 100000 and
+        # residue 100001 the same.
+        return left != right
 
     if isinstance(left, numbers.Number):
         try:
